@@ -18,7 +18,7 @@ type Node struct {
 
 func A(s string) *Node            { return &Node{Atom: s} }
 func S(s string) *Node            { return &Node{IsStr: true, Str: s} }
-func L(items ...*Node) *Node      { return &Node{List: items, isList: true} }
+func L(items ...*Node) *Node      { return &Node{List: append([]*Node(nil), items...), isList: true} }
 func I(i int64) *Node             { return A(strconv.FormatInt(i, 10)) }
 func U(i uint64) *Node            { return A(strconv.FormatUint(i, 10)) }
 func B(b bool) *Node {
